@@ -129,8 +129,18 @@ def main(argv=None) -> int:
 
     workdir = tempfile.mkdtemp(prefix=f"vcheck-{pid}-")
     try:
-        with ThreadPoolExecutor(max_workers=max(1, args.jobs)) as ex:
-            results = list(ex.map(lambda t: run_one_shard(pid, t[1], workdir, t[0]), enumerate(specs)))
+        # shards that start real processes (clusters, data servers, shm servers) run in a later phase, a few at a time, on an
+        # otherwise idle machine: starving them next to 16 CPU-bound shards makes the real code lose local fire-and-forget
+        # messages (1 s zmq linger) and exhaust its 16 s retry budget -- failures the harness itself would have manufactured
+        results = [None] * len(specs)
+        phases = sorted({s.get("phase", 0) for s in specs})
+        ncpu = os.cpu_count() or 4
+        for ph in phases:
+            idx = [i for i, s in enumerate(specs) if s.get("phase", 0) == ph]
+            workers = max(1, args.jobs) if ph == 0 else max(1, min(args.jobs, 8, ncpu // 2))
+            with ThreadPoolExecutor(max_workers=workers) as ex:
+                for i, r in zip(idx, ex.map(lambda i: run_one_shard(pid, specs[i], workdir, i), idx)):
+                    results[i] = r
     finally:
         import shutil
         shutil.rmtree(workdir, ignore_errors=True)
